@@ -21,6 +21,8 @@ pub enum TOp<V> {
     Merge,
     Clone,
     Restart,
+    /// both sides `clone_from` a fresh source that received the first `k` values pushed so far
+    CloneFrom { k: usize },
 }
 
 /// (stream id, equality key, payload bytes) for every collapsible leaf of a value, in push order.
@@ -72,7 +74,7 @@ impl<A: Spec, B: Spec<Val = A::Val>> Scenario for TwinScen<A, B> {
                 }
                 1 => ops.push(TOp::Clear),
                 2 => ops.push(TOp::Merge),
-                3 => ops.push(TOp::Clone),
+                3 => ops.push(if rng.coin() { TOp::Clone } else { TOp::CloneFrom { k: rng.below(3) } }),
                 _ => ops.push(TOp::Restart),
             }
         }
@@ -168,6 +170,43 @@ impl<A: Spec, B: Spec<Val = A::Val>> Scenario for TwinScen<A, B> {
                         out.hit("clone_boundary");
                     }
                 }
+                TOp::CloneFrom { k } => {
+                    // a source with a shorter history; the destination keeps whatever columns,
+                    // dedup memory and allocations it had: none of that may show afterwards
+                    let keep: Vec<A::Val> = ma.iter().take(*k).map(|m| m.1.clone()).collect();
+                    let r = catch(|| {
+                        let mut sa: RegionSut<A> = RegionSut::new();
+                        let mut sb: RegionSut<B> = RegionSut::new();
+                        let ha: Vec<A::Idx> = keep.iter().map(|v| sa.push(v, 0)).collect();
+                        let hb: Vec<B::Idx> = keep.iter().map(|v| sb.push(v, 0)).collect();
+                        let ok = a.try_clone_from(&sa) && b.try_clone_from(&sb);
+                        (ok, ha, hb)
+                    });
+                    match r {
+                        Ok((true, ha, hb)) => {
+                            ma = ha.into_iter().zip(keep.iter().cloned()).collect();
+                            mb = hb.into_iter().zip(keep.iter().cloned()).collect();
+                            last.clear();
+                            saving = 0;
+                            // replay the kept values through the stream model (their repeats were
+                            // already collapsed inside the source; the baseline absorbs them)
+                            for v in &keep {
+                                let mut st = Vec::new();
+                                (self.streams)(v, &mut st);
+                                for (id, key, _) in st {
+                                    last.insert(id, key);
+                                }
+                            }
+                            base = (used_of_a(&a), used_of_b(&b));
+                            out.hit("clone_from_boundary");
+                        }
+                        Ok((false, _, _)) => {}
+                        Err(p) => {
+                            out.fail = fail("clone_from-panicked", step, p.short());
+                            return out;
+                        }
+                    }
+                }
                 TOp::Restart => {
                     if ma.iter().any(|(_, v)| !v.json_safe()) {
                         continue;
@@ -237,6 +276,7 @@ impl<A: Spec, B: Spec<Val = A::Val>> Scenario for TwinScen<A, B> {
             TOp::Merge => json!({"op":"Merge"}),
             TOp::Clone => json!({"op":"Clone"}),
             TOp::Restart => json!({"op":"Restart"}),
+            TOp::CloneFrom { k } => json!({"op":"CloneFrom","k":k}),
         }
     }
     fn op_from_json(&self, j: &J) -> Option<Self::Op> {
@@ -246,6 +286,7 @@ impl<A: Spec, B: Spec<Val = A::Val>> Scenario for TwinScen<A, B> {
             "Merge" => TOp::Merge,
             "Clone" => TOp::Clone,
             "Restart" => TOp::Restart,
+            "CloneFrom" => TOp::CloneFrom { k: j.get("k")?.as_u64()? as usize },
             _ => return None,
         })
     }
